@@ -361,6 +361,18 @@ fn pairs_sweep(tier: Tier) -> Sweep {
     let small = (all.len()).min(tier.pick(400, 1200));
     let mut pool: Vec<(String, M)> = all.iter().take(small).cloned().collect();
     pool.extend(all.iter().skip(small).filter(|(_, m)| matches!(m, M::Let(..))).take(tier.pick(160, 400)).cloned());
+    // implicitness is part of the judgement: the implicit twins of the first functions and function types
+    // (a function type unifies with its twin only inconsistently)
+    let twins: Vec<(String, M)> = pool
+        .iter()
+        .filter_map(|(t, m)| match m {
+            M::Lam(n, i, a, b) => Some((format!("{t} [implicit twin]"), M::Lam(n.clone(), !*i, a.clone(), b.clone()))),
+            M::Pi(n, i, a, b) => Some((format!("{t} [implicit twin]"), M::Pi(n.clone(), !*i, a.clone(), b.clone()))),
+            _ => None,
+        })
+        .take(40)
+        .collect();
+    pool.extend(twins);
     let ts = Rc::new(pool);
     let n = ts.len() as u64;
     let t2 = ts.clone();
